@@ -135,6 +135,8 @@ def rules(ctx, repo, m, meths):
                      'has tolerant_parsing=False wherever a LatexWalkerTokenParseError handler depends on it', 1)
     ctx.rule('R04t', 'the partial encoder reads the token that decides "keep this LaTeX" from a walker constructed in the same '
                      'call from the string `s` that the position `pos` indexes (no walker remembered on the encoder)', 1)
+    ctx.rule('R04u', 'HexstrN (the code point in the unihex output and in the fail message) pads the hexadecimal digits to '
+                     'N places and never removes digits: no slice of the rendering', 1)
     ctx.rule('R04s', 'whether a rule callable accepts `u2lobj` is decided with inspect (getfullargspec / signature), which '
                      'understands every callable; attributes of the code object (__code__, co_varnames) exist on plain '
                      'functions only, so callable objects and functools.partial rules would silently not get the encoder', 1)
@@ -464,6 +466,19 @@ def rules(ctx, repo, m, meths):
                        'handler is dead and malformed input (a trailing backslash, \\begin{ without name) is '
                        'copied through instead of being encoded' % (q_, short(tp) if tp is not None else 'the default (True)'),
                        construct='%s: helper walker' % q_)
+
+    # ------------------------------------------------------------ R04u
+    hx_ = m.functions.get('HexstrN')
+    if hx_ is None:
+        ctx.unknown('R04u', m, None, 'HexstrN not found', construct='HexstrN')
+    else:
+        cuts = [x_ for x_ in ast.walk(hx_) if isinstance(x_, ast.Subscript) and isinstance(x_.slice, ast.Slice)]
+        ctx.decide('R04u', not cuts, m, cuts[0] if cuts else hx_, 'HexstrN pads, it never cuts',
+                   'HexstrN takes a slice of the hexadecimal rendering (%s): padding to N digits this way also TRUNCATES to N '
+                   'digits, so a character above U+FFFF is written with its leading digit missing (U+1F600 as U+F600) -- the '
+                   'unihex policy no longer names the character, distinct characters encode alike, and the ValueError of the '
+                   'fail policy names the wrong code point' % (short(cuts[0], 50) if cuts else ''),
+                   construct='HexstrN: padding')
 
     # ------------------------------------------------------------ R04s
     acc_ = m.functions.get('_callable_accepts_u2lobj_arg')
